@@ -431,12 +431,107 @@ def sink_error_rules(ck, facts, fns):
                        "bound promises items the filter may drop" % fn.name, fn.loc)
             else:
                 ck.ok("R15.11", "%s does not forward the source's lower bound" % fn.name)
-    ck.floor("R15.11", "size hints of filtering adapters", n11, 5)
+    for fn in facts.fns.values():
+        if fn.crate == "sophia_api" and re.search(r"source::map::MapSourceIterator<.*> as std::iter::Iterator>::size_hint$", fn.name):
+            n11 += 1
+            lens = [t for _, t in fn.calls() if call_name_matches(t, r"VecDeque::<T, A>::len$|VecDeque::<T>::len$")]
+            if lens:
+                ck.ok("R15.11", "%s adds its buffered items to the hint" % fn.name)
+            else:
+                ck.bad("R15.11", "R15.11@%s#ignores-buffer" % panics_key(fn.name), "%s forwards the source's hint although items already pulled from "
+                       "the source sit in its buffer: (0, Some(0)) is reported while two items follow" % fn.name, fn.loc)
+    ck.floor("R15.11", "size hints of filtering / buffering adapters", n11, 6)
 
 
 def panics_key(name):
     import panics
     return panics.norm_key(name)
+
+
+def repolls_source(fn, poll_re):
+    """R15.12 on one `next()`: (polls found, every poll is dominated by a test of a bool field of self that is set on a path
+    after a poll)"""
+    polls = [bi for bi, t in fn.calls() if call_name_matches(t, poll_re)]
+    if not polls:
+        return False, False
+    # bool fields of self that are written `true` somewhere
+    set_fields = set()
+    for b in fn.blocks:
+        for st in b["s"]:
+            if st[0] == "=" and len(st[1]) >= 2 and st[1][0] == 1 and ":" in str(st[1][-1]) and st[2][0] == "use":
+                o = fn.origin(st[2][1]) if st[2][1][0] != "k" else ("const", st[2][1][1])
+                if o[0] == "const" and o[1].get("ty") == "bool" and o[1].get("v") == "1":
+                    set_fields.add(str(st[1][-1]))
+    guarded = True
+    for pb in polls:
+        ok = False
+        for cand in fn.dominators().get(pb, ()):
+            t = fn.blocks[cand]["t"]
+            if t["t"] == "switch" and t.get("ty") == "bool" and t["on"][0] != "k":
+                # the tested value derives from one of those fields (possibly negated / copied into a local first)
+                seen, stack = set(), [t["on"]]
+                while stack:
+                    op = stack.pop()
+                    if op[0] == "k" or tuple(op[1]) in seen:
+                        continue
+                    seen.add(tuple(op[1]))
+                    if op[1][0] == 1 and any(str(p_) in set_fields for p_ in op[1][1:]):
+                        ok = True
+                    for b2, si, rv in fn.defs().get(op[1][0], []):
+                        if rv[0] == "use":
+                            stack.append(rv[1])
+                        elif rv[0] == "un":
+                            stack.append(rv[2])
+                        elif rv[0] == "bin":
+                            stack.extend([rv[2], rv[3]])
+        guarded = guarded and ok
+    return True, guarded
+
+
+def source_iterator_rule(ck, facts):
+    """R15.12: the iterator faces of the source adapters stop polling a source that has failed or ended (processing stops at the
+    first error): `next()` polls the source only under a flag that it sets once the source reported an error or its end."""
+    import core
+    ck.control("R15.12", "Polling::pos_repoll", repolls_source(core.fixture_fn("Polling::<I>::pos_repoll"), r"iter::Iterator>?::next$") == (True, False))
+    ck.control("R15.12", "Polling::neg_fused", repolls_source(core.fixture_fn("Polling::<I>::neg_fused"), r"iter::Iterator>?::next$") != (True, True), expect=False)
+    n = 0
+    for f in sorted(facts.fns.values(), key=lambda x: x.id):
+        if f.crate == "sophia_api" and re.search(r"source::(map|filter_map)::\w+SourceIterator<.*> as std::iter::Iterator>::next$", f.name):
+            n += 1
+            found, ok = repolls_source(f, r"Source>?::(try_)?for_some_item$")
+            if not found:
+                ck.bad("R15.12", "R15.12@%s#anchor" % panics_key(f.name), "anchor-missing: the poll of the wrapped source", f.loc)
+            elif ok:
+                ck.ok("R15.12", "%s polls its source only while a done flag is clear" % f.name.split(" as ")[0].lstrip("<"))
+            else:
+                ck.bad("R15.12", "R15.12@%s#repolls-failed-source" % panics_key(f.name), "%s polls the wrapped source on every call with an empty "
+                       "buffer, whatever the source answered before: after an error the items after the fault are delivered (N-Triples), or "
+                       "the same Err is yielded for ever (Turtle: count() never returns)" % f.name, f.loc)
+    ck.floor("R15.12", "iterator faces of source adapters", n, 2)
+
+
+def owned_writer_flush_rule(ck, facts):
+    """R15.13: a serializer that owns its writer (taken by value, no accessor) flushes it before it reports success: with a BufWriter
+    the last bytes would otherwise be written by its drop, where an I/O error is swallowed."""
+    specs = [("sophia_turtle", r"NtSerializer<W> as sophia_api::prelude::TripleSerializer>::serialize_triples$"),
+             ("sophia_turtle", r"NqSerializer<W> as sophia_api::prelude::QuadSerializer>::serialize_quads$"),
+             ("sophia_jsonld", r"JsonLdSerializer<W, L> as sophia_api::prelude::QuadSerializer>::serialize_quads$")]
+    n = 0
+    for crate, pat in specs:
+        for f in [x for x in facts.fns.values() if x.crate == crate and re.search(pat, x.name) and x.kind != "Closure"]:
+            n += 1
+            units = facts.with_closures(f)
+            flushes = [bi for bi, t in f.calls() if call_name_matches(t, r"io::Write>?::flush$")]
+            in_closure = any(call_name_matches(t, r"io::Write>?::flush$") for u in units[1:] for _, t in u.calls())
+            oks = [bi for bi, si, dest, ops in blocks_with_agg(f, "core::result::Result", "Ok") if dest == [0]]
+            short = f.name.split(" as ")[0].lstrip("<")
+            if oks and all(any(f.dominates(fb, o) for fb in flushes) for o in oks) or (in_closure and not flushes):
+                ck.ok("R15.13", "%s flushes the writer it owns before reporting success" % short)
+            else:
+                ck.bad("R15.13", "R15.13@%s#owned-writer-not-flushed" % panics_key(short), "%s owns its writer (taken by value, no accessor) and returns Ok "
+                       "without flushing it: with the BufWriter its documentation recommends, a StorageFull at the end of the output - or "
+                       "anywhere in an output below the buffer size - is never reported" % short, f.loc)
+    ck.floor("R15.13", "serializers owning their writer", n, 3)
 
 
 def run(ck, facts, tier):
@@ -484,6 +579,8 @@ def run(ck, facts, tier):
     ck.control("R15.7", "Buffered::pos_lifo_next (Vec::push / Vec::pop)", pr.fired(r"pos_lifo_next#lifo-buffer$"))
     ck.control("R15.7", "Buffered::neg_fifo_next (push_back / pop_front)", pr.fired(r"neg_fifo_next"), expect=False)
     sink_error_rules(ck, facts, fns)
+    source_iterator_rule(ck, facts)
+    owned_writer_flush_rule(ck, facts)
     n = writer_rule(ck, facts)
     ck.floor("R15.5", "line-oriented serializer closures", n, 2)
     ck.assumptions = ["position bookkeeping inside rio_turtle/rio_xml/json-ld is not decided",
